@@ -19,7 +19,18 @@ func Families(rep *mbt.Report, tier string) []corpus.Input {
 			continue
 		}
 		seen[t] = true
-		out = append(out, corpus.Input{Name: v.Label(), Origin: "tlc:Modules/" + v.Fam, Text: t, Construct: v.Construct(), Unrepresentable: !v.Repr})
+		v := v
+		in := corpus.Input{Name: v.Label(), Origin: "tlc:Modules/" + v.Fam, Text: t, Construct: v.Construct(), Unrepresentable: !v.Repr}
+		if !v.DI && v.Fam != "gv" {
+			in.Simpler = func() []corpus.Input {
+				var ss []corpus.Input
+				for _, w := range v.Singles() {
+					ss = append(ss, corpus.Input{Name: w.Label(), Origin: "tlc:Modules/" + w.Fam, Text: w.Text(), Construct: w.Construct(), Unrepresentable: !w.Repr})
+				}
+				return ss
+			}
+		}
+		out = append(out, in)
 	}
 	return out
 }
